@@ -1312,7 +1312,7 @@ pub fn generate(seed: u64, cfg: &GenCfg) -> Scenario {
         flag_n: rng.chance(1, 2),
         flag_h: rng.chance(1, 3),
         color,
-        color_eq: rng.chance(9, 10),
+        color_eq: true, // the README spells it --color=WHEN; a grep-style optional WHEN would change the two-argument form
         term,
         no_color: rng.chance(1, 8),
         mode,
